@@ -49,10 +49,10 @@ structure Inv (s : OSt) : Prop where
   own : ∀ h d, (s.hs h).dead = false → d ∈ (s.hs h).created → owner s.fs d = some (some h)
   log : ∀ e ∈ s.removed, Good e
 
-private theorem destroyLoop_spec (h : Hid) : ∀ (ds : List Dir) (fs : List (Dir × Option Hid)) (log : List (Hid × Dir × Option Hid)),
+private theorem destroyLoop_spec (par : Dir → Option Dir) (h : Hid) : ∀ (ds : List Dir) (fs : List (Dir × Option Hid)) (log : List (Hid × Dir × Option Hid)),
     (∀ d ∈ ds, owner fs d = some (some h) ∨ owner fs d = none) → (∀ e ∈ log, Good e) →
-    (∀ e ∈ (destroyLoop h ds fs log).2, Good e) ∧
-    (∀ d', owner (destroyLoop h ds fs log).1 d' = owner fs d' ∨ owner fs d' = some (some h)) := by
+    (∀ e ∈ (destroyLoop par h ds fs log).2, Good e) ∧
+    (∀ d', owner (destroyLoop par h ds fs log).1 d' = owner fs d' ∨ owner fs d' = some (some h)) := by
   intro ds
   induction ds with
   | nil => intro fs log _ hl; exact ⟨by simpa [destroyLoop] using hl, fun d' => Or.inl (by simp [destroyLoop])⟩
@@ -69,6 +69,10 @@ private theorem destroyLoop_spec (h : Hid) : ∀ (ds : List Dir) (fs : List (Dir
         · rw [ho] at hd; exact Option.some.inj hd
         · rw [ho] at hd; cases hd
       simp only [destroyLoop, ho]
+      by_cases hc : hasChild par fs d = true
+      · simp only [hc, if_true]
+        exact ih fs log (fun x hx => hds x (by simp [hx])) hl
+      simp only [hc, Bool.false_eq_true, if_false]
       have hrest : ∀ x ∈ rest, owner (fs.filter (fun e => e.1 ≠ d)) x = some (some h) ∨ owner (fs.filter (fun e => e.1 ≠ d)) x = none := by
         intro x hx
         rw [owner_filter]
@@ -139,7 +143,7 @@ theorem step_inv (s : OSt) (op : OOp) (hi : Inv s) : Inv (ostep s op) := by
         · rw [setH_other _ _ _ _ hh] at hl hm; exact hi.own _ _ hl hm
       · simp only [hex, Bool.false_eq_true, if_false]
         have hd : (s.hs h).dead = false := by simpa using hdead
-        obtain ⟨g1, g2⟩ := destroyLoop_spec h (s.hs h).created s.fs s.removed
+        obtain ⟨g1, g2⟩ := destroyLoop_spec s.par h (s.hs h).created s.fs s.removed
           (fun d hm => Or.inl (hi.own h d hd hm)) hi.log
         refine ⟨fun h' d' hl hm => ?_, g1⟩
         dsimp only at hl hm ⊢
